@@ -3,6 +3,7 @@
 that the executable predicate `Spec.C18.disaggSpec` holds on the model's own output.
 -/
 import Bermuda.Lemmas.UnitsDates
+import Bermuda.Lemmas.UnitsAt
 import Bermuda.Lemmas.Basis
 namespace Bermuda.Units
 open Bermuda Bermuda.Spec.C18 Std
@@ -72,7 +73,9 @@ def SubCellsN (res n : Nat) (F : List String) (c : Cell) (part : List Cell) : Pr
   part.map period = obsSubs c res n ∧
   (∀ o ∈ part, o.md = c.md ∧ o.ev = c.ev ∧ o.kind = .cell ∧
     o.values.map (·.1) = (c.values.filter fun kv => F.contains kv.1).map (·.1)) ∧
-  (part ≠ [] → ∀ f, F.contains f = true → ∀ i, total part f i = cellField c f i)
+  (part ≠ [] → ∀ f, F.contains f = true → ∀ i, total part f i = cellField c f i) ∧
+  (part ≠ [] → ∀ f, F.contains f = true → ∀ i,
+    (part.map fun o => (o.getV f).at i).sum = (c.getV f).at i)
 
 theorem disaggSlice_groups {sl out : List Cell} {res : Nat} {ws : List Rat} {fields : List String}
     (hk : ∀ c ∈ sl, KN c.values) (hws : ws ≠ []) (h : disaggSlice sl res ws fields = .ok out) :
@@ -90,7 +93,8 @@ theorem disaggSlice_groups {sl out : List Cell} {res : Nat} {ws : List Rat} {fie
       refine ⟨sres, parts, rfl, h.symm, (mapM_ok_forall2 hm).imp fun c part hc hp => ?_⟩
       obtain ⟨_, h2, h3⟩ := disaggCell_spec (hk c hc) hws hp
       exact ⟨disaggCell_periods (hk c hc) hp,
-        fun o ho => ⟨(h2 o ho).1, (h2 o ho).2.1, (h2 o ho).2.2.1, (h2 o ho).2.2.2.2⟩, h3⟩
+        fun o ho => ⟨(h2 o ho).1, (h2 o ho).2.1, (h2 o ho).2.2.1, (h2 o ho).2.2.2.2⟩, h3,
+        fun hne f hf i => disaggCell_at (hk c hc) hws hp hne f hf i⟩
 
 theorem disaggCore_groups {t out : List Cell} {res : Nat} {ws : List Rat} {fields : List String}
     (hk : ∀ c ∈ t, KN c.values) (hws : ws ≠ []) (h : disaggCore t res ws fields = .ok out) :
@@ -396,7 +400,7 @@ theorem disaggCore_spec {t out : List Cell} {res : Nat} {ws : List Rat} {F : Lis
           exact hemp (by simp [this])
         intro kv hkv i _
         have hF : F.contains kv.1 = true := (List.mem_filter.mp hkv).2
-        rw [total_perm hch, hsub.2.2 hne kv.1 hF i]
+        rw [total_perm hch, hsub.2.2.1 hne kv.1 hF i]
         exact close_zero_self _
   · rw [hperm.length_eq, natsum_map_perm (slices_flatten_perm t).symm, natsum_flatMap,
       List.length_flatten]
